@@ -30,10 +30,18 @@ def derive_seed(base, pid, clause, shard):
     return int.from_bytes(h[:8], "big") % (2 ** 63)
 
 
+# Quick-tier budget multipliers: the per-clause quick budgets were sized when every property had to finish in a few
+# seconds; the properties below still take < 10 s with them on 16 cores, so their generated budget is multiplied (the
+# thorough tier is ~13x the base quick budget, so every scaled quick budget stays inside what the thorough soaks explored).
+QUICK_SCALE = {"C01": 3, "C03": 5, "C04": 5, "C05": 8, "C06": 8, "C07": 10, "C10": 6, "C12": 8, "C13": 2, "C15": 2,
+               "C16": 4, "C18": 4, "C19": 3, "C20": 4}
+
+
 def _plan(prop, tier):
     tasks = []
+    scale = QUICK_SCALE.get(prop.id, 1) if tier == "quick" and not os.environ.get("QV_NO_QUICK_SCALE") else 1
     for cl in prop.clauses:
-        n = int(cl.budget.get(tier, 0))
+        n = int(cl.budget.get(tier, 0)) * scale
         if cl.enumerate is not None:
             ns = cl.max_shards
             for s in range(ns):
